@@ -82,9 +82,12 @@ def r1_staged_publication(repo=None):
     if len(renames) == 1 and len(renames[0].args) == 2 and isinstance(renames[0].args[1], ast.Name):
         destp = renames[0].args[1].id
     if tvar is None or destp is None:
-        r.violation(m.rel, q, "%d staging calls / %d publishing renames" % (len(stage_calls), len(renames)), "the stage-then-rename pair is "
-                    "missing", line=f.lineno)
-        return r
+        if stage_calls and not renames:
+            r.violation(m.rel, q, "%d staging calls / %d publishing renames" % (len(stage_calls), len(renames)), "the stage-then-rename pair is "
+                        "missing", line=f.lineno)
+            return r
+        raise AnalysisError("%s: staging call / publishing rename not recognised (%d calls of self.mirror_fun, %d renames; their path "
+                            "arguments must be plain locals)" % (q, len(stage_calls), len(renames)))
     ddirs, dnames = dir_and_name_of(destp)
     sdirs, _ = dir_and_name_of(srcp)
     v = single_def(tvar)
@@ -291,6 +294,15 @@ def r3_handler_configuration(repo=None):
         def fun(kw):
             v = kw.get("mirror_fun")
             return v[1] if isinstance(v, tuple) else v
+        # a verdict needs the evaluated keyword values: a handler whose flags (or a ringbuffer whose limits) were not evaluated
+        # - built through a table, functools.partial, ** of an unresolved mapping - is not judged
+        for name_, kw_, node_ in mh:
+            unk = [k_ for k_ in ("include_drf", "include_dmd", "include_drf_properties", "include_dmd_properties") if not isinstance(kw_.get(k_), bool)]
+            if unk:
+                raise AnalysisError("%s.__init__ (%s): flags %s of a mirror handler were not evaluated to constants" % (MI, row, unk))
+        for name_, kw_, node_ in rb:
+            if not isinstance(kw_.get("count"), int) or not isinstance(kw_.get("include_drf"), bool) or not isinstance(kw_.get("include_dmd"), bool):
+                raise AnalysisError("%s.__init__ (%s): arguments of the metadata ringbuffer were not evaluated to constants (%s)" % (MI, row, kw_))
         rf_handlers = [h for h in mh if h[1].get("include_drf") is True]
         if idrf and len(rf_handlers) != 1:
             probs.append("RF files are in the language of %d handlers (must be exactly one, else a file is copied and moved / not mirrored)" % len(rf_handlers))
@@ -314,8 +326,11 @@ def r3_handler_configuration(repo=None):
             if kw.get("include_drf_properties") is not idrf or kw.get("include_dmd_properties") is not idmd or kw.get("include_dmd") is not idmd:
                 probs.append("properties/metadata of the included kinds are not copied (copy handler flags %s)" % {
                     k: v for k, v in kw.items() if k and k.startswith("include")})
-            if fun(kw) not in ("shutil.copy2", "LinkWithFallback()", "_LinkWithFallback()", "copylike_mirror_fun"):
+            if fun(kw) in ("shutil.move", "os.rename", "os.replace", "os.remove", "os.unlink"):
                 probs.append("copy handler uses %s (expected shutil.copy2 or the hard-link-with-fallback function)" % fun(kw))
+            elif fun(kw) not in ("shutil.copy2", "LinkWithFallback()", "_LinkWithFallback()", "copylike_mirror_fun"):
+                raise AnalysisError("%s.__init__ (%s): the function of the copy handler, `%s`, is not one this rule knows (shutil.copy2 or the "
+                                    "callable hard-link-with-fallback class)" % (MI, row, fun(kw)))
             if str(fun(kw)).endswith("LinkWithFallback()") and env.get("self.link") is not True:
                 probs.append("hard links used although link mode is off")
         if eff_method == "move" and idmd:
@@ -534,6 +549,40 @@ def r5_identical_content(repo=None):
                             "an existing destination of the staging step is taken for this run's own link; the destination given to the "
                             "mirror function is always the `tmp.` staging name, so what exists there is left over from an interrupted "
                             "mirror and the rename that follows publishes it under the final name", line=h.lineno)
+        # (c) 'files that would be copied are instead hard linked; when hard linking is not possible, files will be copied': every
+        # os.link of the function is covered by the copy fallback - it lies in the body of a try (directly, or inside a nested try
+        # whose handlers re-try) that has an OSError handler which copies.  A link made in an `except` clause that is a *sibling*
+        # of the OSError clause is not covered: a second failure there (EXDEV after the left-over staging file was removed)
+        # leaves the mirror function by exception and the file is never mirrored.
+        try:
+            fcall = m.flat("%s.__call__" % cname).fn()
+        except AnalysisError:
+            fcall = call
+        par_ = {}
+        for n_ in ast.walk(fcall):
+            for ch_ in ast.iter_child_nodes(n_):
+                par_[ch_] = n_
+        links = [c for c in ast.walk(fcall) if isinstance(c, ast.Call) and pyfront.call_name(c) in ("os.link", "os.symlink")]
+        copies_somewhere = any(isinstance(c, ast.Call) and pyfront.call_name(c) in ("shutil.copy2", "shutil.copy", "shutil.copyfile") for c in ast.walk(fcall))
+        for c in links if copies_somewhere else []:
+            covered = False
+            ch_, an_ = c, par_.get(c)
+            while an_ is not None and not covered:
+                if isinstance(an_, ast.Try) and any(ch_ is st_ for st_ in an_.body):
+                    for h in an_.handlers:
+                        names = ["*"] if h.type is None else [pyfront.dotted(h.type)] if not isinstance(h.type, ast.Tuple) else [pyfront.dotted(e) for e in h.type.elts]
+                        if any(x in ("OSError", "EnvironmentError", "IOError", "Exception", "*") for x in names) and any(
+                                isinstance(x, ast.Call) and pyfront.call_name(x) in ("shutil.copy2", "shutil.copy", "shutil.copyfile") for x in ast.walk(h)):
+                            covered = True
+                ch_, an_ = an_, par_.get(an_)
+            site = "%s:%s %s.__call__ `%s`" % (m.rel, c.lineno, cname, norm(ast.unparse(c))[:40])
+            if covered:
+                r.ok(site, "a failure of this link is caught by an OSError handler that copies instead")
+            else:
+                r.violation(m.rel, cname + ".__call__", "%s outside the copy fallback" % norm(ast.unparse(c))[:50], "a link that fails here "
+                            "(another file system: EXDEV - reported only after a left-over staging file was removed, because EEXIST comes "
+                            "first) is not followed by the copy fallback: the exception leaves the mirror function, mirror_to_dest "
+                            "prints it and the file is never mirrored", line=c.lineno)
     if n_cls == 0:
         r.note("no callable class is used as mirror function")
     r.guard(2)
@@ -561,7 +610,10 @@ EXPLANATION = (
     'list order - one composite handler built from self.event_handlers is scheduled, its dispatch is a plain loop over '
     'that list; scheduling the handlers one by one is reported (the observer keeps them in a set). R5 also: when a mirror'
     ' function can create hard links every content comparison is the right operand of `os.path.samefile(src, dest) or '
-    '...`. Does NOT decide byte identity or crash points inside shutil.move.')
+    '...`. Does NOT decide byte identity or crash points inside shutil.move. R5 also (c): in a callable class used as the'
+    ' mirror function every os.link lies in the body of a try whose OSError handler copies - a link made in a sibling '
+    'except clause is not covered by the copy fallback. R3 judges only values it evaluated to constants; tables, partials'
+    ' and unresolved mappings are not decided.')
 TECHNIQUE = ('Python ast; complete operation table of mirror_to_dest; CFG ordering; abstract execution of the constructor over all option rows; regular-language emptiness for tmp. names')
 ASSUMPTIONS = ["os.rename within the destination directory is atomic", "shutil.copy2/os.link produce a complete file before returning"]
 FILES = [MR, "python/digital_rf/list_drf.py", "python/digital_rf/ringbuffer.py"]
